@@ -631,7 +631,7 @@ def rule_docstring_own(rep: Report, rid="C13.own") -> None:
                 if isinstance(node, ast.Attribute) and node.attr in (DS_ACTIVE, DS_INDENT) and isinstance(node.ctx, (ast.Store, ast.Del)):
                     rep.ob(rid, f"{node.attr} is written only by the delimiter matcher and reset()", False, file=fi.file, line=node.lineno,
                            function=fi.qualname, expected=sorted(allowed), found=fi.name)
-    rep.floor("doc string state write sites", n, 6)
+    rep.floor("doc string state write sites", n, 2)
 
 
 def rule_other_text(rep: Report, rid="C13.text", cls_q=MQ, openers=('"""', "```")) -> None:
@@ -752,6 +752,10 @@ def rule_reset(rep: Report, rid="C15.reset", classes=(MQ, "gherkin.token_matcher
                     if isinstance(n, ast.Subscript) and isinstance(n.ctx, (ast.Store, ast.Del)) and isinstance(n.value, ast.Attribute) \
                             and isinstance(n.value.value, ast.Name) and n.value.value.id == "self":
                         written.setdefault(n.value.attr, set()).add(fi.qualname)
+        for a in list(written):
+            pm = cls.find_method(a)
+            if pm is not None and pm.is_property:
+                del written[a]      # a property (e.g. current_node): the object mutated lives in another attribute
         # what reset() establishes
         I = new_interp()
         rfi = cls.find_method("reset")
